@@ -239,6 +239,47 @@ func (w *World) TokenWith(form url.Values, a Auth, opt TokenOpts) *Obs {
 	return parseRecorder(rec)
 }
 
+// Two-phase token endpoint: NewAccessRequest now, NewAccessResponse later (two HTTP requests that overlap
+// in a server interleave exactly like this at the library's API).
+type PendingToken struct {
+	ar  fosite.AccessRequester
+	err error
+	obs *Obs
+}
+
+func (w *World) TokenBegin(form url.Values, a Auth) *PendingToken {
+	req := postReq("/token", form, a)
+	ctx := context.Background()
+	ar, err := w.Prov.NewAccessRequest(ctx, req, w.NewSession(""))
+	p := &PendingToken{ar: ar, err: err}
+	if err != nil {
+		rec := httptest.NewRecorder()
+		w.Prov.WriteAccessError(ctx, rec, ar, err)
+		p.obs = parseRecorder(rec)
+		p.obs.GoErr = errString(err)
+	}
+	return p
+}
+
+func (w *World) TokenFinish(p *PendingToken) *Obs {
+	if p.obs != nil {
+		return p.obs
+	}
+	ctx := context.Background()
+	rec := httptest.NewRecorder()
+	resp, err := w.Prov.NewAccessResponse(ctx, p.ar)
+	if err != nil {
+		w.Prov.WriteAccessError(ctx, rec, p.ar, err)
+		o := parseRecorder(rec)
+		o.GoErr = errString(err)
+		p.obs = o
+		return o
+	}
+	w.Prov.WriteAccessResponse(ctx, rec, p.ar, resp)
+	p.obs = parseRecorder(rec)
+	return p.obs
+}
+
 // TokenAbandoned: the integrator validates the token request (NewAccessRequest) and then declines
 // to answer it (its own policy said no): no response is ever populated.
 func (w *World) TokenAbandoned(form url.Values, a Auth) error {
